@@ -18,3 +18,46 @@ Proof. intros H Hin. unfold through. apply filter_In. split; [exact Hin|]. rewri
 (* an unwrapped stub would let every mutating operation through (why the wrapper matters) *)
 Theorem unwrapped_leaks body : effects (through false body) = effects body.
 Proof. reflexivity. Qed.
+
+(* ---- the wrapper with data ---------------------------------------------------------------- *)
+(* the wrapped body leaves the peer's view of the transaction exactly as it found it: no write, no delete, no event, no
+   validation parameter, no private data - whatever the body attempts, in any order and number *)
+Theorem wrapped_leaves_peer body : forall p, fst (run_with wrapped_step p body) = p.
+Proof.
+  induction body as [|o r IH]; intros p; cbn [run_with]; [reflexivity|].
+  unfold wrapped_step at 1. destruct (is_write o) eqn:E.
+  - specialize (IH p). destruct (run_with wrapped_step p r) as [p2 xs]. exact IH.
+  - destruct o; try discriminate; cbn [peer_step]; specialize (IH p); destruct (run_with wrapped_step p r) as [p2 xs]; exact IH.
+Qed.
+
+(* ... and it reads exactly what the same body would read unwrapped: a query sees the committed ledger, never its
+   own attempted writes - with or without the wrapper *)
+Lemma wrapped_reads_same_gen body : forall p q, committed p = committed q ->
+  snd (run_with wrapped_step p body) = snd (run_with peer_step q body).
+Proof.
+  induction body as [|o r IH]; intros p q Hc; cbn [run_with]; [reflexivity|].
+  unfold wrapped_step at 1. destruct o as [k v|k|n v|x|k|x]; cbn [is_write peer_step].
+  - specialize (IH p (Peer (committed q) (writes q ++ [(k, Some v)]) (event q) (others q)) Hc).
+    destruct (run_with wrapped_step p r) as [p2 xs]. destruct (run_with peer_step _ r) as [q2 ys]. cbn [snd] in *. congruence.
+  - specialize (IH p (Peer (committed q) (writes q ++ [(k, None)]) (event q) (others q)) Hc).
+    destruct (run_with wrapped_step p r) as [p2 xs]. destruct (run_with peer_step _ r) as [q2 ys]. cbn [snd] in *. congruence.
+  - specialize (IH p (Peer (committed q) (writes q) (Some (n, v)) (others q)) Hc).
+    destruct (run_with wrapped_step p r) as [p2 xs]. destruct (run_with peer_step _ r) as [q2 ys]. cbn [snd] in *. congruence.
+  - specialize (IH p (Peer (committed q) (writes q) (event q) (others q ++ [x])) Hc).
+    destruct (run_with wrapped_step p r) as [p2 xs]. destruct (run_with peer_step _ r) as [q2 ys]. cbn [snd] in *. congruence.
+  - specialize (IH p q Hc). rewrite Hc.
+    destruct (run_with wrapped_step p r) as [p2 xs]. destruct (run_with peer_step q r) as [q2 ys]. cbn [snd] in *. congruence.
+  - specialize (IH p q Hc).
+    destruct (run_with wrapped_step p r) as [p2 xs]. destruct (run_with peer_step q r) as [q2 ys]. cbn [snd] in *. congruence.
+Qed.
+Theorem wrapped_reads_same body p : snd (run_with wrapped_step p body) = snd (run_with peer_step p body).
+Proof. apply wrapped_reads_same_gen. reflexivity. Qed.
+
+(* the numbered-operation model of Model/QueryStub.v is the projection of this one *)
+Lemma is_write_mutating o : (match o with QOtherWrite x => (3 <=? x)%N && (x <=? 7)%N | QOtherRead x => (20 <=? x)%N | _ => true end) = true ->
+  is_write o = mutating (op_no o).
+Proof. destruct o as [k v|k|n v|x|k|x]; cbn; intros H; try reflexivity.
+  - unfold mutating. apply andb_true_iff in H as [H1 H2]. apply N.leb_le in H1, H2.
+    destruct (N.leb_spec 1 x), (N.leb_spec x 8); try reflexivity; lia.
+  - unfold mutating. apply N.leb_le in H. destruct (N.leb_spec 1 x), (N.leb_spec x 8); try reflexivity; lia.
+Qed.
